@@ -118,7 +118,7 @@ CLAIMS = {
              'even, odd, start, end, length, item), seqvar_roman + roman_denotes / roman_value (fromRoman(toRoman n) = n for all '
              'n < 5000, decided by kernel evaluation over the whole range), item_and_key, lookup_sequence_name, '
              'lookup_sequence_var / sequence_var_attr / sequence_var_key, first_last_spec / lookup_first / lookup_last, '
-             'prefix_alias, else_iff_empty, item_pushed, in_scope_ends (C08); the per-index methods of sequence_variables (number, even, odd, letter, Letter, key, item, Roman, roman, value, first, last, length) are TRANSLATED from /repo on every run (harness/trans_seqvar.py -> GenSeqVar.lean) and proved equal to the model: gen_seqvar_arith_is_model, gen_seqvar_letter_is_model, gen_seqvar_item_is_model, gen_seqvar_key_is_model, gen_seqvar_value_is_model, gen_seqvar_value_is_seqValue, gen_seqvar_first_is_model, gen_seqvar_last_is_model, gen_seqvar_fixed_is_model; for the batched renderer inside the interpreter '
+             'prefix_alias, else_iff_empty, item_pushed, in_scope_ends (C08); the per-index methods of sequence_variables (number, even, odd, letter, Letter, key, item, Roman, roman, value, first, last, length) are TRANSLATED from /repo on every run (harness/trans_seqvar.py -> GenSeqVar.lean) and proved equal to the model: gen_seqvar_arith_is_model, gen_seqvar_letter_is_model, gen_seqvar_item_is_model, gen_seqvar_key_is_model, gen_seqvar_value_is_model, gen_seqvar_value_is_seqValue, gen_seqvar_first_is_model, gen_seqvar_last_is_model, gen_seqvar_fixed_is_model, and so is the dispatch of __getitem__ (getitemGen: dictionary first, split at the last \'-\', hasattr / special_prefixes / -var / sequence-query / KeyError): gen_getitem_data_is_model, gen_getitem_split, gen_getitem_plain_key_missing, gen_getitem_fixed_is_model, gen_getitem_var_is_model, gen_getitem_first_is_model, gen_getitem_last_is_model; for the batched renderer inside the interpreter '
              '(inBatch / inLoopB = renderwb): Batched.inLoopB_rule, once_per_window_element, window_flags, start_cleared, '
              'window_is_batch_window / batched_count (the rendered window is C11\'s Batch.window: end - start + 1 elements), '
              'prev_vars / next_vars / vars_are_links (previous-/next-sequence variables = C11 links), get_set_same / '
